@@ -129,14 +129,17 @@ ezc3d::DataNS::Frame &ezc3d::DataNS::Data::frame_nonConst(size_t idx)
 
 void ezc3d::DataNS::Data::frame(const ezc3d::DataNS::Frame &frame, size_t idx)
 {
-    if (idx == SIZE_MAX){
-        // Copying a frame only copies its handles on the points and the analogs: add() makes the stored frame own a copy
-        _frames.push_back(ezc3d::DataNS::Frame());
-        _frames.back().add(frame);
-    } else {
+    // Copying a frame only copies its handles on the points and the analogs: add() makes the stored frame own a copy.
+    // The copy is made first because the frame sent may be one of the data set (e.g. data().frame(0)), which moves
+    // when the data set grows
+    ezc3d::DataNS::Frame copy;
+    copy.add(frame);
+    if (idx == SIZE_MAX)
+        _frames.push_back(copy);
+    else {
         if (idx >= _frames.size())
             _frames.resize(idx+1);
-        _frames[idx].add(frame);
+        _frames[idx] = copy;
     }
 }
 
